@@ -11,6 +11,8 @@
   messages are answered by neither mechanism (`C11_partial`).
 -/
 import PV.Model.RekeyFlight
+import PV.Model.RekeyLock
+import PV.Generated.C11
 namespace PV.Props.C11
 open PV.RekeyFlight
 
@@ -129,5 +131,311 @@ example : ∀ ev ∈ [Ev.startRekey, .inflight .data, .userSend 94, .peerKexinit
   intro ev h; simp at h; rcases h with rfl | rfl | rfl | rfl <;> simp [Quiet, mech]
 /-- the witnesses are not quiet -/
 example : ¬ Quiet (.inflight .channelClose) := by simp [Quiet, mech]
+
+/-! ## Channel.lock as a resource: user threads never wait for the exchange while holding it -/
+
+section Lock
+open PV.RekeyLock
+
+/-- what must be on the wire after our KEXINIT and the kex messages, given the progress of both threads -/
+def expectedTail (s : RekeyLock.St) : List Nat :=
+  match s.phase with
+  | .sentKexinit | .kexRunning => []
+  | .sentNewkeys => [21]
+  | .done => if s.upc = .done then [21, s.userType] else [21]
+
+structure LInv (s : RekeyLock.St) : Prop where
+  lockPc : s.lockUser = true ↔ (s.upc = .crit ∨ s.upc = .waitHolding)
+  noHold : s.underLock = false → s.upc ≠ .waitHolding
+  kex : s.inbox.filter isKex = remaining s.phase
+  ctsPhase : s.cts = true ↔ s.phase = .done
+  doneCts : s.upc = .done → s.cts = true
+  wire : ∃ kex, s.wire = 20 :: kex ++ expectedTail s ∧ ∀ t ∈ kex, t = 30
+
+/-- the situation the theorems start from: our KEXINIT is out, the user thread is about to make its call, and the
+transport thread will find any channel messages (lock-taking or not) interleaved in any way with the peer's three
+kex packets -/
+theorem linv_init (underLock : Bool) (userType : Nat) (inbox : List TMsg)
+    (h : inbox.filter isKex = [.peerKexinit, .kexReply, .peerNewkeys]) :
+    LInv { underLock, userType, inbox } :=
+  ⟨by simp, by simp, h, by simp, by simp, ⟨[], by simp [expectedTail], by simp⟩⟩
+
+private theorem tail_done (s : RekeyLock.St) (kex : List Nat) (hp : s.phase = .done) (hnd : s.upc ≠ .done)
+    (hw : s.wire = 20 :: kex ++ expectedTail s) : s.wire ++ [s.userType] = 20 :: kex ++ [21, s.userType] := by
+  simp [expectedTail, hp, hnd] at hw; rw [hw]; simp
+
+private theorem tail_same (s : RekeyLock.St) (a b : UPc) (ha : a ≠ .done) (hb : b ≠ .done) (hu : s.upc = a) :
+    expectedTail { s with upc := b } = expectedTail s := by
+  cases hp : s.phase <;> simp [expectedTail, hp, hu, ha, hb]
+
+private theorem linv_user (s : RekeyLock.St) (hi : LInv s) : LInv (stepUser s) := by
+  obtain ⟨h1, h2, h3, h4, h5, kex, hw, hk⟩ := hi
+  have finish : ∀ (a : UPc), s.upc = a → a ≠ .done → s.cts = true → ∀ (l : Bool),
+      LInv { s with upc := .done, lockUser := l, wire := s.wire ++ [s.userType] } → True := fun _ _ _ _ _ _ => trivial
+  unfold stepUser
+  cases hu : s.upc with
+  | start =>
+    simp only
+    refine ⟨by simp, by simp, h3, h4, by simp, kex, ?_, hk⟩
+    have := tail_same s .start .crit (by simp) (by simp) hu
+    simp only [expectedTail] at this ⊢ hw
+    cases hp : s.phase <;> simp [hp, hu] at hw ⊢ <;> exact hw
+  | crit =>
+    simp only
+    have hnd : s.upc ≠ .done := by simp [hu]
+    have hlk : s.lockUser = true := h1.mpr (Or.inl hu)
+    by_cases hul : s.underLock = true
+    · rw [if_pos hul]
+      by_cases hc : s.cts = true
+      · rw [if_pos hc]
+        have hp := h4.mp hc
+        exact ⟨by simp, by simp, h3, h4, fun _ => hc, kex,
+          by simpa [expectedTail, hp] using tail_done s kex hp hnd hw, hk⟩
+      · rw [if_neg hc]
+        refine ⟨by simp [hlk], by simp [hul], h3, h4, by simp, kex, ?_, hk⟩
+        cases hp : s.phase <;> simp [expectedTail, hp, hu] at hw ⊢ <;> exact hw
+    · rw [if_neg hul]
+      by_cases hc : s.cts = true
+      · rw [if_pos hc]
+        have hp := h4.mp hc
+        exact ⟨by simp, by simp, h3, h4, fun _ => hc, kex,
+          by simpa [expectedTail, hp] using tail_done s kex hp hnd hw, hk⟩
+      · rw [if_neg hc]
+        refine ⟨by simp, by simp, h3, h4, by simp, kex, ?_, hk⟩
+        cases hp : s.phase <;> simp [expectedTail, hp, hu] at hw ⊢ <;> exact hw
+  | waitFree =>
+    simp only
+    have hnd : s.upc ≠ .done := by simp [hu]
+    by_cases hc : s.cts = true
+    · rw [if_pos hc]
+      have hp := h4.mp hc
+      have hl : s.lockUser = false := by
+        cases hlu : s.lockUser with
+        | false => rfl
+        | true => have := h1.mp hlu; simp [hu] at this
+      exact ⟨by simp [hl], by simp, h3, h4, fun _ => hc, kex,
+        by simpa [expectedTail, hp] using tail_done s kex hp hnd hw, hk⟩
+    · rw [if_neg hc]
+      exact ⟨h1, h2, h3, h4, h5, kex, hw, hk⟩
+  | waitHolding =>
+    simp only
+    have hnd : s.upc ≠ .done := by simp [hu]
+    by_cases hc : s.cts = true
+    · rw [if_pos hc]
+      have hp := h4.mp hc
+      exact ⟨by simp, by simp, h3, h4, fun _ => hc, kex,
+        by simpa [expectedTail, hp] using tail_done s kex hp hnd hw, hk⟩
+    · rw [if_neg hc]
+      exact ⟨h1, h2, h3, h4, h5, kex, hw, hk⟩
+  | done =>
+    simp only
+    exact ⟨h1, h2, h3, h4, h5, kex, hw, hk⟩
+
+private theorem kex_pop (m : TMsg) (rest : List TMsg) (ph : RekeyLock.Phase) (hm : isKex m = true)
+    (h : (m :: rest).filter isKex = remaining ph) : remaining ph = m :: rest.filter isKex := by
+  rw [List.filter_cons_of_pos hm] at h; exact h.symm
+
+private theorem linv_transport (s : RekeyLock.St) (hi : LInv s) : LInv (stepTransport s) := by
+  obtain ⟨h1, h2, h3, h4, h5, kex, hw, hk⟩ := hi
+  have hcts_of : s.phase ≠ .done → s.cts = false := by
+    intro hne
+    cases hc : s.cts with
+    | false => rfl
+    | true => exact absurd (h4.mp hc) hne
+  unfold stepTransport
+  cases hb : s.inbox with
+  | nil => simp only; exact ⟨h1, h2, h3, h4, h5, kex, hw, hk⟩
+  | cons m rest =>
+    rw [hb] at h3
+    cases m with
+    | handler tl =>
+      simp only
+      by_cases hc : tl = true ∧ s.lockUser = true
+      · rw [if_pos hc]; exact ⟨h1, h2, by rw [hb]; exact h3, h4, h5, kex, hw, hk⟩
+      · rw [if_neg hc]
+        have h3' : rest.filter isKex = remaining s.phase := by
+          rw [List.filter_cons_of_neg (by simp [isKex])] at h3; exact h3
+        exact ⟨h1, h2, h3', h4, h5, kex, hw, hk⟩
+    | peerKexinit =>
+      have hr := kex_pop _ rest s.phase rfl h3
+      have hp : s.phase = .sentKexinit := by
+        cases hp : s.phase <;> simp [hp, remaining] at hr ⊢
+      simp only
+      rw [if_pos hp]
+      rw [hp] at hr
+      have h3' : rest.filter isKex = remaining .kexRunning := by
+        simp only [remaining] at hr ⊢; exact (List.cons.inj hr).2.symm
+      have hcts := hcts_of (by simp [hp])
+      refine ⟨h1, h2, h3', by simp [hcts], fun h => by simp [h5 h] at hcts, kex ++ [30], ?_, ?_⟩
+      · simp [expectedTail, hp] at hw ⊢; simp [hw]
+      · intro t ht; simp at ht; rcases ht with h | h
+        · exact hk t h
+        · exact h
+    | kexReply =>
+      have hr := kex_pop _ rest s.phase rfl h3
+      have hp : s.phase = .kexRunning := by
+        cases hp : s.phase <;> simp [hp, remaining] at hr ⊢
+      simp only
+      rw [if_pos hp]
+      rw [hp] at hr
+      have h3' : rest.filter isKex = remaining .sentNewkeys := by
+        simp only [remaining] at hr ⊢; exact (List.cons.inj hr).2.symm
+      have hcts := hcts_of (by simp [hp])
+      refine ⟨h1, h2, h3', by simp [hcts], fun h => by simp [h5 h] at hcts, kex, ?_, hk⟩
+      simp [expectedTail, hp] at hw ⊢; simp [hw]
+    | peerNewkeys =>
+      have hr := kex_pop _ rest s.phase rfl h3
+      have hp : s.phase = .sentNewkeys := by
+        cases hp : s.phase <;> simp [hp, remaining] at hr ⊢
+      simp only
+      rw [if_pos hp]
+      rw [hp] at hr
+      have h3' : rest.filter isKex = remaining .done := by
+        simp only [remaining] at hr ⊢; exact (List.cons.inj hr).2.symm
+      have hcts := hcts_of (by simp [hp])
+      have hnd : s.upc ≠ .done := fun h => by simp [h5 h] at hcts
+      refine ⟨h1, h2, h3', by simp, fun _ => rfl, kex, ?_, hk⟩
+      simp [expectedTail, hp, hnd] at hw ⊢; exact hw
+
+theorem linv_step (s : RekeyLock.St) (t : Tid) (hi : LInv s) : LInv (RekeyLock.step s t) := by
+  cases t
+  · exact linv_user s hi
+  · exact linv_transport s hi
+
+/-- the invariant holds after every schedule of the two threads -/
+theorem linv_run (s : RekeyLock.St) (sched : List Tid) (hi : LInv s) : LInv (RekeyLock.run s sched) := by
+  induction sched generalizing s with
+  | nil => exact hi
+  | cons t ts ih => exact ih _ (linv_step s t hi)
+
+/-- **No deadlock (current code).**  If the user thread's call does not hand its message to
+`_send_user_message` while holding `Channel.lock`, then in every reachable state that is not finished at least one
+of the two threads can move: the transport thread is never stuck behind a lock whose holder waits for the
+exchange. -/
+theorem rekey_lock_progress (s : RekeyLock.St) (hi : LInv s) (hul : s.underLock = false)
+    (hnf : ¬ finished s) : stepUser s ≠ s ∨ stepTransport s ≠ s := by
+  obtain ⟨h1, h2, h3, h4, h5, _⟩ := hi
+  have hnh := h2 hul
+  cases hb : s.inbox with
+  | cons m rest =>
+    -- the transport thread moves unless a lock-taking handler finds the lock held — then the holder is in
+    -- its critical section and releases
+    cases m with
+    | handler tl =>
+      by_cases hc : tl = true ∧ s.lockUser = true
+      · left
+        have := h1.mp hc.2
+        rcases this with h | h
+        · unfold stepUser; simp only [h, hul, Bool.false_eq_true, if_false]
+          intro heq
+          have := congrArg RekeyLock.St.upc heq
+          by_cases hcts : s.cts = true <;> simp [hcts, h] at this
+        · exact absurd h hnh
+      · right
+        unfold stepTransport; simp only [hb]; rw [if_neg hc]
+        intro heq; have := congrArg (fun x => x.inbox.length) heq; simp [hb] at this
+    | peerKexinit =>
+      right; unfold stepTransport; simp only [hb]
+      intro heq; have := congrArg (fun x => x.inbox.length) heq
+      split at this <;> simp [hb] at this
+    | kexReply =>
+      right; unfold stepTransport; simp only [hb]
+      intro heq; have := congrArg (fun x => x.inbox.length) heq
+      split at this <;> simp [hb] at this
+    | peerNewkeys =>
+      right; unfold stepTransport; simp only [hb]
+      intro heq; have := congrArg (fun x => x.inbox.length) heq
+      split at this <;> simp [hb] at this
+  | nil =>
+    -- nothing left to read: the exchange is over (cts set), the user thread finishes its call
+    left
+    rw [hb] at h3
+    have hph : s.phase = .done := by
+      cases hp : s.phase <;> simp [hp, remaining] at h3; rfl
+    have hcts : s.cts = true := h4.mpr hph
+    have hnd : s.upc ≠ .done := fun h => hnf ⟨h, hb⟩
+    unfold stepUser
+    cases hu : s.upc <;> simp only [hu, hul, hcts, if_true, Bool.false_eq_true, if_false] <;>
+      first
+      | exact absurd hu hnd
+      | exact absurd hu hnh
+      | (intro heq; have := congrArg RekeyLock.St.upc heq; simp [hu] at this)
+
+/-- every step that changes anything uses up the bound: at most `measure s` effective steps, so with
+`rekey_lock_progress` every schedule that keeps running enabled threads ends in `finished` -/
+theorem rekey_lock_measure (s : RekeyLock.St) (t : Tid) (h : RekeyLock.step s t ≠ s) :
+    RekeyLock.measure (RekeyLock.step s t) < RekeyLock.measure s := by
+  cases t with
+  | user =>
+    simp only [RekeyLock.step] at h ⊢
+    unfold stepUser at h ⊢
+    cases hu : s.upc <;> simp only [hu] at h ⊢
+    · simp [RekeyLock.measure, rank, hu]
+    · by_cases a : s.underLock = true <;> by_cases b : s.cts = true <;> simp [RekeyLock.measure, rank, hu, a, b]
+    · by_cases b : s.cts = true
+      · simp [RekeyLock.measure, rank, hu, b]
+      · simp [b] at h
+    · by_cases b : s.cts = true
+      · simp [RekeyLock.measure, rank, hu, b]
+      · simp [b] at h
+    · simp at h
+  | transport =>
+    simp only [RekeyLock.step] at h ⊢
+    unfold stepTransport at h ⊢
+    cases hb : s.inbox with
+    | nil => simp [hb] at h
+    | cons m rest =>
+      simp only [hb] at h ⊢
+      cases m with
+      | handler tl =>
+        simp only at h ⊢
+        by_cases hc : tl = true ∧ s.lockUser = true
+        · rw [if_pos hc] at h; exact absurd rfl h
+        · rw [if_neg hc]; simp [RekeyLock.measure, hb]
+      | peerKexinit => simp only; split <;> simp [RekeyLock.measure, hb]
+      | kexReply => simp only; split <;> simp [RekeyLock.measure, hb]
+      | peerNewkeys => simp only; split <;> simp [RekeyLock.measure, hb]
+
+/-- **What a finished run looks like** (any schedule, with or without the lock held): our KEXINIT, kex messages,
+our NEWKEYS, and only then the user thread's message — nothing of the connection layer inside the window -/
+theorem rekey_lock_finished_wire (s : RekeyLock.St) (hi : LInv s) (hf : finished s) :
+    ∃ kex, s.wire = 20 :: kex ++ [21, s.userType] ∧ ∀ t ∈ kex, t = 30 := by
+  obtain ⟨_, _, _, h4, h5, kex, hw, hk⟩ := hi
+  have hp := h4.mp (h5 hf.1)
+  exact ⟨kex, by simpa [expectedTail, hp, hf.1] using hw, hk⟩
+
+/-- **Witness for the lock-holding variant** (what the mutated `shutdown()` does): an in-flight WINDOW_ADJUST ahead
+of the peer's kex packets, the user thread waits for the exchange while holding the lock — neither thread can
+move, nothing is finished. -/
+theorem rekey_lock_held_deadlock_witness :
+    let s := RekeyLock.run
+      { underLock := true, inbox := [.handler true, .peerKexinit, .kexReply, .peerNewkeys] } [Tid.user, Tid.user]
+    stepUser s = s ∧ stepTransport s = s ∧ ¬ finished s := by decide
+
+/-- the same schedule with today's code runs to completion -/
+example : finished (RekeyLock.run
+      { underLock := false, inbox := [.handler true, .peerKexinit, .kexReply, .peerNewkeys] }
+      [Tid.user, .user, .transport, .transport, .transport, .transport, .user]) ∧
+    (RekeyLock.run { underLock := false, inbox := [.handler true, .peerKexinit, .kexReply, .peerNewkeys] }
+      [Tid.user, .user, .transport, .transport, .transport, .transport, .user]).wire = [20, 30, 21, 96] := by
+  decide
+
+/-- **The tree under test.**  No call site of `_send_user_message` in a user-thread method of `Channel` is inside a
+`Channel.lock` region (read from the AST on every run) — the hypothesis `underLock = false` of
+`rekey_lock_progress` for every channel API call. -/
+theorem user_sites_release_lock_first :
+    ∀ site ∈ Generated.C11.sites, site.onTransportThread = false → site.underLock = false := by decide
+
+/-- the transport-thread call sites of `_send_user_message` are exactly the handlers behind the self-block
+findings (`_handle_request`, `_handle_close`; `_request_failed` and the discard branch of `_feed_extended` use the
+same mechanism): a new one would be a new finding -/
+theorem transport_thread_sites :
+    ((Generated.C11.sites.filter (·.onTransportThread)).map (·.func)).eraseDups
+      = ["_request_failed", "_feed_extended", "_handle_request", "_handle_close"] := by decide
+
+/-- the handlers that can be blocked by a held lock -/
+example : Generated.C11.handlers.lookup "_window_adjust" = some true := by decide
+
+end Lock
 
 end PV.Props.C11
